@@ -18,6 +18,8 @@ mod c03_result;
 #[cfg(kani)]
 mod c03_owned;
 #[cfg(kani)]
+mod c03_layout;
+#[cfg(kani)]
 mod c10_result;
 #[cfg(kani)]
 mod c12_write;
